@@ -339,7 +339,7 @@ def offending(rows):
 def offending_variants(vrows):
     """rows of the regenerated variant table that fail variant_row_ok: [(pkg, type, reasons naming the fields)]"""
     return [{"pkg": r["pkg"], "type": r["type"], "why": r["bad"],
-             "fields": [f for f in r["fields"] if any(f["name"] in b for b in r["bad"])],
+             "fields": [f for f in r["fields"] if any(("field %s " % f["name"]) in b or ("field %s:" % f["name"]) in b for b in r["bad"])],
              "recv_writes": r["recv_writes"]} for r in vrows or [] if not r["ok"]]
 
 
@@ -609,9 +609,18 @@ P = {
         "errors and funcs); calls into code outside the module with such arguments count as writes unless whitelisted with a written reason "
         "(list printed at the end of coq/Gen/Effects.v); destination arguments of whitelisted callees (Unmarshal/Decode/errors.As/ReadFull/"
         "Fprint/Append…) and in-place std generics always count; dependencies are loaded from export data in the quick tier",
+        "soundness of the variant extraction (harness/tools/effects/variants.go): abstract interpretation of WithConfig and of the module "
+        "functions it calls (constructors, Merge helpers, generic IfThenElse/IfThenElseExec, closures with the bindings they were created "
+        "with) over go/ssa, flow-insensitive, one abstract object per allocation site, struct values as per-field trees; code without "
+        "analysed body by contract (std slices/maps by the stdGenerics table; whitelisted read-only callees return fresh memory that may "
+        "refer to their arguments; anything else receiving receiver memory is a receiver write whose result may alias); values passed "
+        "through channels, reflection or unsafe are not followed; the override map handed to WithConfig counts as fresh; which methods "
+        "write a field is decided by type reachability from the field's type (unexported fields of other modules' structs are not followed)",
         "the merge rules of c17Merge (harness) as the implementation-independent meaning of 'catalogue configuration overlaid with own overrides'",
-        "the store-of-cells abstraction: a mechanism is a record of field cells, WithConfig shares or replaces whole fields, a call's "
-        "accesses are atomic reads/writes of cells (Go memory model: race = two conflicting unsynchronised accesses)",
+        "the store-of-cells abstraction: a mechanism is a record of one cell per field (leaf of the struct, value structs of the module "
+        "flattened), WithConfig shares, copies, overwrites or allocates whole cells as the variant table says, a call's accesses are atomic "
+        "reads/writes of cells (Go memory model: race = two conflicting unsynchronised accesses); in the model the override of a field IS "
+        "the value the code builds for it — that the built value is the right one is checked by the variants stream, not proved",
         "reflection deep-hash: variables captured by closures and memory behind unsafe.Pointer are not visible; sync/atomic state, "
         "protobuf descriptors, cel-go environments and text/template function tables are hashed as opaque",
         "third-party libraries used read-only by Execute (text/template, cel-go, regexp, go-jose, x509) are safe for concurrent use as documented",
@@ -620,25 +629,37 @@ P = {
         "mechanism methods are entered only through Execute / WithConfig / the accessors of the method set (what the rule factory and the pipeline call)",
         "the driver is in package mechanisms and reaches NewMechanismFactory, mechanismsFactory and the config structs; a rename there breaks the driver, not the property",
     ],
-    "level_text": "Proof (kernel-checked, no axioms) over a store-of-cells model that for EVERY effect table passing `forallb row_ok` and every "
-                  "interleaving of executions, accessor calls and WithConfig calls no cell that existed is written, no two accesses conflict, and every "
-                  "instance shows its prototype's catalogue configuration overlaid with its own overrides, independent of history.  In that model a "
-                  "read-only table means no write step exists, so the theorems reduce the property to ONE fact about heimdall: `Example "
-                  "effects_read_only` over the effect table REGENERATED from the current source by a go/ssa taint analysis (destination-aware "
-                  "whitelist, package-level state, closures, std generics; self-tested on 47 seeded constructs).  What the model assumes about "
-                  "WithConfig (fresh cells for overridden fields, the rest shared) is CHECKED, not proved: ~800 (quick) / 12000 (thorough) histories "
-                  "on the real mechanisms in all creation orders compare every variant, field by field and in behaviour, with a prototype that the "
-                  "constructor builds from the merged configuration, and rule-B-after-rule-A on a shared cache with rule B alone; a 16-goroutine "
-                  "-race stream with key-store reloads covers all 19 mechanism types.",
-    "level_note": "PARTIAL: soundness of the SSA effect extraction is trusted (it over-approximates; callees outside the module that receive "
-                  "receiver-derived or package-level pointers count as writes unless whitelisted with a reason, and whitelisted callees still count "
-                  "for their destination arguments).  Not covered by table or model: writers outside the method set (goroutines started by "
-                  "constructors, OnChanged reload — the latter is exercised by the race stream only), the rule factory (the driver calls the "
-                  "mechanism factory the rule factory calls).  A correctly synchronised memo (sync.Once / mutex / atomic in a mechanism) is reported as a "
-                  "write: the check enforces 'immutable', not merely 'race free'.  Trusted further: Coq kernel/vm_compute; the cell abstraction of Go "
-                  "memory; the harness (reflection deep-hash with the stated opaque types and without closure captures / spare slice capacity; in-memory "
-                  "endpoints; the merge rules of c17Merge as transcription of the documented override semantics); documented thread-safety of "
-                  "text/template, cel-go, go-jose, strings.Replacer.  Finding C17-F1 was repaired by fix: commit 13721c3 "
-                  "(C17_F1_pinned_refuted documents the pinned behaviour, it says nothing about today's tree).",
-    "technique": "generated effect summary (go/ssa) + invariant proof over interleavings + differential deep-hash/race correspondence",
+    "level_text": "Proof (kernel-checked, no axioms) over a store-of-cells model in which NOTHING about WithConfig is assumed: a variant is "
+                  "built from the row of a VARIANT TABLE (per field: the receiver's field shared / copied, fresh, fresh but computed from a "
+                  "receiver field, possibly sharing memory with one — then overridden in place —, or forgotten; plus the methods that write the "
+                  "field).  For EVERY effect table passing `forallb row_ok` and EVERY variant table passing `forallb variant_row_ok`, and every "
+                  "interleaving of executions, accessor calls and WithConfig calls: no cell that existed is written, no two accesses conflict, "
+                  "every instance shows its prototype's catalogue configuration overlaid with its own overrides, independent of history "
+                  "(C17_for_every_table); and from the variant table ALONE, whatever methods write: every field nobody writes keeps exactly that "
+                  "value in every instance and no write ever hits such a field (C17_locality_from_variant_table, C17_writes_stay_local).  This "
+                  "reduces the property to TWO facts about heimdall, both REGENERATED from the current source by harness/tools/effects and checked "
+                  "by vm_compute: `effects_read_only` (go/ssa taint analysis: no method writes receiver memory; self-tested on 47 seeded "
+                  "constructs) and `variants_ok` (go/ssa abstract interpretation of all 19 WithConfig and the constructors / Merge helpers / "
+                  "closures they call: 102 fields; self-tested on 9 fixture types: slices.Clip aliasing, shared-then-mutated and lazily filled maps, "
+                  "struct copy with embedded pointer, copied memo, forgotten / swapped / never-set field, sub-slice).  That the VALUE built for an overridden "
+                  "field is the right one is CHECKED, not proved: ~800 (quick) / 12000 (thorough) histories on the real mechanisms in all creation "
+                  "orders compare every variant, field by field and in behaviour, with a prototype that the constructor builds from the merged "
+                  "configuration, and rule-B-after-rule-A on a shared cache with rule B alone; a 16-goroutine -race stream with key-store reloads "
+                  "covers all 19 mechanism types.",
+    "level_note": "PARTIAL: soundness of the two SSA extractions is trusted (both over-approximate; callees outside the module that receive "
+                  "receiver-derived or package-level pointers count as writes unless whitelisted with a reason, whitelisted callees still count "
+                  "for their destination arguments, and their results count as referring to their arguments; the variant extraction does not "
+                  "follow channels / reflection / unsafe and treats the override map as fresh).  The theorems speak about cells = struct fields: "
+                  "that a field the table calls Fresh holds the value the override prescribes is established by the differential stream only; the "
+                  "evaluator still executes the simple make_variant model, proved to show the same views as the table-driven one "
+                  "(C17_variant_views_agree).  Not covered by tables or model: writers outside the method set (goroutines started by constructors, "
+                  "OnChanged reload — the latter is exercised by the race stream only), the rule factory (the driver calls the mechanism factory "
+                  "the rule factory calls).  A correctly synchronised memo (sync.Once / mutex / atomic in a mechanism) is reported as a write: the "
+                  "check enforces 'immutable', not merely 'race free' (the locality theorem alone would tolerate a memo that WithConfig rebuilds). "
+                  "Trusted further: Coq kernel/vm_compute; the cell abstraction of Go memory; the harness (reflection deep-hash with the stated "
+                  "opaque types and without closure captures / spare slice capacity; in-memory endpoints; the merge rules of c17Merge as "
+                  "transcription of the documented override semantics); documented thread-safety of text/template, cel-go, go-jose, "
+                  "strings.Replacer.  Finding C17-F1 was repaired by fix: commit 13721c3 (C17_F1_pinned_refuted documents the pinned behaviour; "
+                  "C17_variant_check_refutes_M2 / _seeded_9 document what the variant check rejects; none says anything about today's tree).",
+    "technique": "generated effect summary and generated WithConfig variant table (go/ssa) + invariant proofs over interleavings + differential deep-hash/race correspondence",
 }
